@@ -110,3 +110,16 @@ Proof.
   { destruct cfg as [s b z]. simpl. rewrite andb_true_r. reflexivity. }
   rewrite E. destruct (write_op cfg keys sent o) as [[[wire keys'] sent'] e]. rewrite IH. reflexivity.
 Qed.
+
+(* without writers left open, the run used by the harness is the tagged run of the theorems *)
+Lemma write_all_o_closed : forall ops cfg keys sent,
+    write_all_o cfg keys sent None (map (fun to => XOp (fst to) (snd to)) ops) = write_all_t cfg keys sent ops.
+Proof.
+  induction ops as [|[z o] ops IH]; intros cfg keys sent; [reflexivity|].
+  cbn [map write_all_o write_all_t fst snd].
+  replace (if begins_message o && negb sent then close_open cfg keys None else ([], keys)) with (@nil N, keys)
+    by (destruct (begins_message o && negb sent); reflexivity).
+  replace (if begins_message o then @None mw else None) with (@None mw) by (destruct (begins_message o); reflexivity).
+  destruct (write_op _ keys sent o) as [[[wire keys'] sent'] e].
+  rewrite IH. destruct (write_all_t cfg keys' sent' ops) as [w es]. reflexivity.
+Qed.
